@@ -177,6 +177,53 @@ def run_level(ck, eng, pop):
     ck.sample({'script': dc.render(pick[0]), 'perms_run': len(by[0]), 'results': by[0][0][1].get('results')})
 
 
+
+CLAUSE_SCALAR_SCRIPTS = [
+    ['DS_r1 <- DS_1[filter Me_1 > lo and Me_1 < hi];', 'lo := 1;', 'hi := 300;'],
+    ['DS_r1 <- DS_1[calc Me_1 := Me_1 * factor + offset];', 'factor := 2;', 'offset := 5;'],
+    ['DS_r1 <- DS_1[calc Me_1 := a + b + c];', 'a := 1;', 'b := 2;', 'c := 3;'],
+    ['k := 2;', 'm := k * 3;', 'DS_r1 <- DS_1[calc Me_1 := Me_1 * m + k];'],
+    ['DS_r1 <- DS_1[filter Me_1 > lo][calc Me_1 := Me_1 + hi];', 'lo := 1;', 'hi := 300;'],
+    ['DS_r1 <- DS_1[filter Me_1 > lo] * hi;', 'lo := 1;', 'hi := 3;'],
+    ['DS_r2 := DS_1[calc Me_1 := Me_1 + p + q];', 'DS_r1 <- DS_r2[filter Me_1 > q and Me_1 > p];', 'p := 1;', 'q := 2;'],
+    ['DS_r1 <- DS_1[calc Me_1 := if Me_1 > lo and Me_1 < hi then mid else Me_1];', 'lo := 1;', 'hi := 300;', 'mid := 7;'],
+]
+
+
+def clause_scalar_level(ck, eng):
+    """scalars produced by other statements and used INSIDE clauses (filter / calc): the DAG must order the statement after
+    every one of them, whatever the textual order (clause-level names are promoted to dependencies by DAGAnalyzer)."""
+    import itertools
+    jobs, meta = [], []
+    for si, stmts in enumerate(CLAUSE_SCALAR_SCRIPTS):
+        perms = list(itertools.permutations(range(len(stmts))))
+        if len(perms) > 24:
+            perms = perms[:1] + ck.rng.sample(perms[1:], 23)
+        for p in perms:
+            jobs.append((' '.join(stmts[i] for i in p), [1], True, False)); meta.append((si, p))
+    res = eng.map(dc.run_case, jobs)
+    sem = eng.map(dc.sem_case, [(j[0], j[1]) for j in jobs])
+    first = {}
+    for (si, p), r, sm, j in zip(meta, res, sem, jobs):
+        ck.count(('clause-scalars', j[0]))
+        rep = {'script': j[0], 'original_order_script': ' '.join(CLAUSE_SCALAR_SCRIPTS[si]), 'inputs': ['DS_1'],
+               'entry': 'run(script, structures, datapoints DS_1: Id_1=1..3, Me_1=5*Id_1)', 'outcome': {k: v for k, v in r.items() if k != 'trace'}}
+        if r.get('kind') == 'timeout':
+            raise RuntimeError('engine timeout on ' + j[0])
+        if not r.get('ok'):
+            ck.violation('c12:clause-scalars:valid-script-fails-in-some-order', rep,
+                         'run() fails for an order of a valid script whose clauses use scalars defined by other statements: %s' % (r.get('code') or r.get('msg')))
+            continue
+        if not sm.get('ok'):
+            ck.violation('c12:clause-scalars:semantic_analysis-fails-in-some-order', dict(rep, sem=sm), 'semantic_analysis() fails for an order of a valid script')
+        if si not in first:
+            first[si] = (r, j[0])
+        elif not _same_results(first[si][0]['results'], r['results']):
+            ck.violation('c12:clause-scalars:results-differ-across-permutations', dict(rep, other_script=first[si][1], other=first[si][0]['results']),
+                         'run() gives different results for two orders of the same statements')
+    ck.note('clause_scalar_level', {'scripts': len(CLAUSE_SCALAR_SCRIPTS), 'runs': len(jobs)})
+
+
 def selfref_level(ck, eng, pop):
     """scripts whose only cycle is `X := X + ...` (non-persistent): the DAG visitor drops the self
     input, so they are not rejected as cycles; the property asks for the cycle error"""
@@ -252,6 +299,7 @@ def main(ck):
         run_level(ck, eng, pop)
         t2 = time.time()
         selfref_level(ck, eng, pop)
+        clause_scalar_level(ck, eng)
         ck.note('phase_seconds', {'dag_level': round(t1 - t0, 1), 'run_level': round(t2 - t1, 1), 'selfref': round(time.time() - t2, 1)})
         if not pr['ok']:
             # the search IS the metamorphic / oracle run above (it evaluates the property on the real
